@@ -10,7 +10,7 @@
 
 using namespace verif; using namespace VATA;
 
-namespace c01 { struct Variant { const char* name; bool down, rec, opt, sim; }; int callIncl(const ExplicitTreeAut&, const ExplicitTreeAut&, const Variant&, std::string*); }
+namespace c01 { struct Variant { const char* name; bool down, rec, opt, sim; }; int callIncl(const ExplicitTreeAut&, const ExplicitTreeAut&, const Variant&, std::string*); extern std::string g_internalViolation; }
 
 namespace c19 {
 
@@ -84,11 +84,13 @@ static void smallPairsTrim(Env& env, const std::string& stage, int n, const dom:
   uint64_t NB = DB->size(); ParallelOpts o; o.stage = stage; o.size = (uint64_t)DA->size() * NB; o.block = 16; o.caseTimeout = 60;
   o.describe = [DA, DB, NB](uint64_t idx) { return "A: " + DA->str(DA->get(idx / NB)) + " | B: " + DA->str(DB->get(idx % NB)); };
   o.run = [DA, DB, NB, perms, sperms, n](uint64_t idx, Ctx& c) { ref::TA A = DA->get(idx / NB), B = DB->get(idx % NB); c.evals(); uint64_t w = A.rules.size() + B.rules.size(); if (A != B) c.nontrivial(); bool expect = ref::included(A, B); c.count(expect ? "expect_included" : "expect_not_included");
-    static const int NV[4] = {0, 2, 4, 6};
+    static const int NV[5] = {0, 2, 3, 4, 6};   // the four no-simulation variants + non-recursive downward WITH simulation (its per-position antichain is observed through a guarded hook)
     for (auto& pa : perms) for (auto& pb : perms) for (int emb = 0; emb < 2; emb++) for (auto& sp : sperms) for (int od = 0; od < 2; od++) {
       std::vector<int> oa(A.rules.size()), ob(B.rules.size()); for (size_t i = 0; i < oa.size(); i++) oa[i] = od ? (int)(oa.size() - 1 - i) : (int)i; for (size_t i = 0; i < ob.size(); i++) ob[i] = od ? (int)(ob.size() - 1 - i) : (int)i;
       ExplicitTreeAut a = buildVariant(A, [&](size_t q) { return emb ? 7 * pa[q] + 3 : pa[q]; }, sp, oa), b = buildVariant(B, [&](size_t q) { return emb ? 5 * pb[q] + 1 : pb[q]; }, sp, ob);
-      for (int vi : NV) { const auto& v = VAR[vi]; std::string what; int g = c01::callIncl(a, b, v, &what); c.count("calls"); if (g != (expect ? 1 : 0)) {
+      for (int vi : NV) { const auto& v = VAR[vi]; std::string what; c01::g_internalViolation.clear(); int g = c01::callIncl(a, b, v, &what); c.count("calls");
+        if (!c01::g_internalViolation.empty()) { c.viol(std::string("renamed twin of a pair/") + v.name, "internal_antichain_invariant_broken_under_renaming", {}, "A: " + DA->str(A) + " | B: " + DA->str(B) + " | " + c01::g_internalViolation, w); c01::g_internalViolation.clear(); return; }
+        if (g != (expect ? 1 : 0)) {
           std::string tag = "A states:"; for (int q = 0; q < n; q++) tag += " " + std::to_string(q) + "->" + std::to_string(emb ? 7 * pa[q] + 3 : pa[q]); tag += " B states:"; for (int q = 0; q < n; q++) tag += " " + std::to_string(q) + "->" + std::to_string(emb ? 5 * pb[q] + 1 : pb[q]); tag += " symbol ids:"; for (int s : sp) tag += " " + std::to_string(s); tag += od ? " descending insertion" : " ascending insertion";
           c.viol(std::string("renamed twin of a pair/") + v.name, "inclusion_verdict_changed_under_renaming", {}, "A: " + DA->str(A) + " | B: " + DA->str(B) + " | " + tag + " expected=" + std::to_string(expect) + " got=" + std::to_string(g) + " " + what + "\n--- A (timbuk)\n" + dom::timbuk(A, DA->sig, "A") + "--- B (timbuk)\n" + dom::timbuk(B, DA->sig, "B"), w); return; } } } };
   env.parallel(o);
@@ -167,9 +169,9 @@ static Register s1("c19.small.single.n3k3", "C19", "every automaton of TA(3,{a:0
 static Register s2("c19.small.single.n3k2", "C19", "TA(3,{a:0,f:1,g:2},<=2) under all renamings/orders", [](Env& e) { smallSingle(e, "c19.small.single.n3k2", 3, dom::Sigma3p(), 2); });
 static Register s3("c19.small.pairs.n2t3", "C19", "every pair of TA(2,{a:0,b:0,g:2}) with total <=3 rules under all bijections x embeddings x symbol-id permutations x insertion orders, 8 inclusion variants", [](Env& e) { smallPairs(e, "c19.small.pairs.n2t3", 2, dom::Sigma2(), 2, 3); });
 static Register s4("c19.small.pairs.n2k2", "C19", "every pair of TA(2,{a:0,b:0,g:2},<=2 per side) under all renamings/orders, 8 variants", [](Env& e) { smallPairs(e, "c19.small.pairs.n2k2", 2, dom::Sigma2(), 2, 4); });
-static Register s5("c19.small.pairs.trim.n2s3.a2b3", "C19", "pairs of TRIMMED automata of TA(2,{a:0,b:0,f:1,g:2}) (A <=2, B <=3 rules) under all state bijections x embeddings x all 24 symbol-id permutations x 2 insertion orders, 4 no-sim variants", [](Env& e) { smallPairsTrim(e, "c19.small.pairs.trim.n2s3.a2b3", 2, dom::Sigma3(), 2, 3); });
+static Register s5("c19.small.pairs.trim.n2s3.a2b3", "C19", "pairs of TRIMMED automata of TA(2,{a:0,b:0,f:1,g:2}) (A <=2, B <=3 rules) under all state bijections x embeddings x all 24 symbol-id permutations x 2 insertion orders, 4 no-sim variants + down_nonrec_sim", [](Env& e) { smallPairsTrim(e, "c19.small.pairs.trim.n2s3.a2b3", 2, dom::Sigma3(), 2, 3); });
 static Register s6("c19.small.pairs.trim.n2s3.a3b3", "C19", "pairs of TRIMMED automata of TA(2,{a:0,b:0,f:1,g:2},<=3 rules) under all renamings", [](Env& e) { smallPairsTrim(e, "c19.small.pairs.trim.n2s3.a3b3", 2, dom::Sigma3(), 3, 3); });
-static Register s7("c19.small.pairs.trim.n2s2.a3b3", "C19", "pairs of TRIMMED automata of TA(2,{a:0,b:0,g:2},<=3 rules) under all state bijections x embeddings x all symbol-id permutations x 2 insertion orders, 4 no-sim variants", [](Env& e) { smallPairsTrim(e, "c19.small.pairs.trim.n2s2.a3b3", 2, dom::Sigma2(), 3, 3); });
+static Register s7("c19.small.pairs.trim.n2s2.a3b3", "C19", "pairs of TRIMMED automata of TA(2,{a:0,b:0,g:2},<=3 rules) under all state bijections x embeddings x all symbol-id permutations x 2 insertion orders, 4 no-sim variants + down_nonrec_sim", [](Env& e) { smallPairsTrim(e, "c19.small.pairs.trim.n2s2.a3b3", 2, dom::Sigma2(), 3, 3); });
 static Register s8("c19.small.pairs.trim.n2s2.a3b5", "C19", "pairs of TRIMMED automata of TA(2,{a:0,b:0,g:2}): A <=3 x B <=5 rules under all renamings", [](Env& e) { smallPairsTrim(e, "c19.small.pairs.trim.n2s2.a3b5", 2, dom::Sigma2(), 3, 5); });
 static Register c1("c19.corpus.small.single", "C19", "every file of automata/small_timbuk: equivalent to its reduced / trimmed / reloaded / renamed forms", [](Env& e) { corpusSingle(e, "c19.corpus.small.single", "automata/small_timbuk", 1 << 20, 20); });
 static Register c2("c19.corpus.small.pairs", "C19", "all ordered pairs of automata/small_timbuk: 8 variants agree, language laws", [](Env& e) { corpusPairs(e, "c19.corpus.small.pairs", "automata/small_timbuk", 4096, 20, ""); });
